@@ -965,3 +965,7 @@ mutant('SW-delegated_safety_instructions-19-2', ['C12'], [('src/delegated_safety
 mutant('SW-delegated_safety_config-31-1', ['C13'], [('src/delegated_safety/config.rs', '        Self { forbid_delegated_create: true, reserve_delegated_balance: false }\n', '        Self { forbid_delegated_create: false, reserve_delegated_balance: false }\n')], ['|H6|'])
 mutant('SW-config-34-del', ['C13'], [('src/config.rs', '        self.delegated_safety = delegated_safety;\n', '')], ['|H6|'])
 mutant('SW-beneficiary-46-1', ['C13'], [('src/beneficiary.rs', '        self.address == address\n', '        self.address != address\n')], ['|H6|'])
+
+mutant('Q3-policy-switched-off-after-normalisation', ['C12'], [
+    (S, "        config.delegated_safety = config.delegated_safety.for_spec(cfg.spec);\n", "        config.delegated_safety = config.delegated_safety.for_spec(cfg.spec);\n        if cfg.disable_nonce_check {\n            config.delegated_safety.forbid_delegated_create = false;\n        }\n"),
+], ['|Q3|'])
